@@ -341,6 +341,7 @@ class MemStore:
         self.docs: Dict[bytes, Any] = {}
         self.dumps_calls = 0
         self.loads_calls = 0
+        self.created: List[Dict[str, Any]] = []      # keyword options of every formatter instance built
 
     def put(self, tree) -> bytes:
         handle = b"MEM:%d" % len(self.docs)
@@ -354,18 +355,30 @@ class MemStore:
         store = self
 
         class MemFormat(ConfigFormat):
+            """option `wrap=K` (like YAML's root_key / XML's root_tag): documents are the tree wrapped in {K: tree};
+            a formatter built without the option a document was written with does not understand it"""
+
             def __init__(self, **kw):
                 self.kw = kw
+                store.created.append(dict(kw))
 
             def dumps(self, config, tree):
                 store.dumps_calls += 1
-                return store.put(_deep(tree))
+                tree = _deep(tree)
+                if self.kw.get("wrap"):
+                    tree = {self.kw["wrap"]: tree}
+                return store.put(tree)
 
             def loads(self, config, content):
                 store.loads_calls += 1
                 if content not in store.docs:
                     raise ValueError("malformed document")
-                return _deep(store.docs[content])
+                tree = _deep(store.docs[content])
+                if self.kw.get("wrap"):
+                    if not isinstance(tree, dict) or list(tree) != [self.kw["wrap"]]:
+                        raise ValueError("unexpected root")
+                    tree = tree[self.kw["wrap"]]
+                return tree
 
         ConfigFormat.initialize_registry()
         ConfigFormat.register("mem", MemFormat)
